@@ -36,7 +36,7 @@ CLAIMED.update({
 
 CANDIDATES = {
     "C01": {
-        "text": "K level with the REAL quantised coefficients of enumerated geometries: for all contents (full, or 3 components at symbolic positions over a fixed background for long windows) the real horizontal and vertical pass output differs from the independent ideal resampling (reference/ideal.py: pixel-centre mapping, documented kernels, adaptive scale, normalisation; weights scaled by 2^24) by at most half a unit plus the fixed-point quantisation allowance n*2^-(p+1)*max. Round-to-nearest of a pass w.r.t. its own coefficients is C02's specification; pass order, clamping between passes and SuperSampling's two-step structure are decided at P level (C05, C12).",
+        "text": "K level with the REAL quantised coefficients of enumerated geometries, horizontal and vertical pass. (1) For U8 Bilinear 8->3 and ALL contents: |out - ideal resampling| <= 1/2 + max*n*2^-(p+1), the ideal weights coming from the independent reference/ideal.py (pixel-centre mapping, documented kernels, adaptive scale, normalisation; scaled by 2^24). (2) For the other geometries in two steps: (a) kernel == round-to-nearest fixed-point specification of its own coefficients for symbolic contents (4 components at generator-chosen positions over a fixed background), (b) every real coefficient equals the ideal weight rounded to 2^-p and the real window lies inside the ideal one (constants; a change of the float stage shows up as a failed assertion with a replayable counterexample); (a)+(b) give the same bound by the triangle inequality (argued in kern.rs, not a solver result). Pass order, clamping between passes and SuperSampling's two-step structure are decided at P level (C05, C12).",
         "note": "Geometries enumerated (3 quick / ~30 thorough, source <= 12 per side, 7 built-in filters, integer/fractional/edge-flush crops); windows whose sample centre sits on a kernel discontinuity are skipped and listed in the evidence; I32/F32 arithmetic outside; the float stage is executed natively, a change to it shows up as different constants in the next run.",
         "design": "5/C01",
     },
@@ -91,8 +91,8 @@ CANDIDATES = {
         "design": "5/C14",
     },
     "C15": {
-        "text": "CropBox::fit_src_into_dst_size with all four sizes symbolic in 1..=5 (thorough 1..=7) and centering any non-NaN f64 pair: positive size, non-negative origin, inside the source exactly as CroppedSrcImageView::crop evaluates it, full span in one dimension, margins = removed size x clamped centering, aspect ratio; zero sizes -> whole image.",
-        "note": "Everything above 5 (7) is OUTSIDE the claim - i.e. almost all of the 1..65535 range, including the double-rounding cases (the smallest overshooting pair of fl(fl(w/h)*h) is 7x25).",
+        "text": "CropBox::fit_src_into_dst_size with all four sizes symbolic in 1..=3 (thorough 1..=5 and 7): positive size, non-negative origin, inside the source exactly as CroppedSrcImageView::crop evaluates it, full span in one dimension, aspect ratio (centering any non-NaN f64 pair); margins = removed size x clamped centering (centering pair picked symbolically from {-3.5, 0, .25, .5, .75, 1, 7, +inf}^2 - with a free f64 the product of two symbolic doubles does not finish); zero sizes -> whole image.",
+        "note": "Everything above 3 (5/7) is OUTSIDE the claim - i.e. almost all of the 1..65535 range, including the double-rounding cases (the smallest overshooting pair of fl(fl(w/h)*h) is 7x25; seeded change C15a is missed for that reason).",
         "design": "5/C15",
     },
     "C18": {
